@@ -1038,7 +1038,10 @@ def visibility_case(draw, shard, tier):
     case = draw(source_spec(("kepler", "kepler", "sgp4")))
     case["station"] = draw(station_spec())
     case["listeners"] = []
-    case["extra"] = draw(st.sampled_from([[], [], [dict(kind="node", frame=None)]]))
+    # listeners of the caller's own next to the station's: another kind, or the station's own signal listener at a
+    # non-zero elevation threshold (its documented `elev` argument) - the horizon events must still all be there
+    case["extra"] = draw(st.sampled_from([[], [], [dict(kind="node", frame=None)], [dict(kind="signal", elev=0.17)],
+                                          [dict(kind="signal", elev=0.09), dict(kind="node", frame=None)]]))
     return case
 
 
@@ -1057,7 +1060,8 @@ def check_visibility(case):
         if str(p.frame) != sta.name or p.form.name != "spherical":
             raise Violation("visibility-form", f"{what}: point in frame {p.frame} / form {p.form.name}")
         got.append(dict(us=us, label=None if ev is None else str(ev.info), phi=float(p.phi), phi_dot=float(p.phi_dot),
-                        kind=None if ev is None else type(ev).__name__, sv=p.copy()))
+                        kind=None if ev is None else type(ev).__name__, sv=p.copy(),
+                        elev=0.0 if ev is None else float(getattr(ev.listener, "elev", 0.0) or 0.0)))
     for a, b in zip(got, got[1:]):
         if b["us"] < a["us"]:
             raise Violation("order-stream", f"{what}: visibility stream goes back in time at {b['us']} us")
@@ -1099,13 +1103,15 @@ def check_visibility(case):
     for e in events:
         t = topo_state(e["sv"], geo)
         if e["kind"] == "SignalEvent":
-            n_aos += e["label"] == "AOS"
-            n_los += e["label"] == "LOS"
+            thr = e.get("elev", 0.0)          # the threshold of the listener that raised it (0 = the station's own)
+            if thr == 0.0:
+                n_aos += e["label"] == "AOS"
+                n_los += e["label"] == "LOS"
             tol_el = 1e-6 + (t_res - 3e-6) * abs(t["eldot"])
-            worst = max(worst, abs(t["el"]) / tol_el, abs(e["phi"]) / tol_el)
-            if abs(t["el"]) > tol_el or abs(e["phi"]) > tol_el:
-                raise Violation("visibility-aos-los", f"{what}: {e['label']} at t = {e['us'] / 1e6} s has elevation {e['phi']:.3g} "
-                                                      f"rad (oracle {t['el']:.3g})")
+            worst = max(worst, abs(t["el"] - thr) / tol_el, abs(e["phi"] - thr) / tol_el)
+            if abs(t["el"] - thr) > tol_el or abs(e["phi"] - thr) > tol_el:
+                raise Violation("visibility-aos-los", f"{what}: {e['label']} (threshold {thr:.3g} rad) at t = {e['us'] / 1e6} s "
+                                                      f"has elevation {e['phi']:.3g} rad (oracle {t['el']:.3g})")
             want = "AOS" if t["eldot"] > 0 else "LOS"
             if abs(t["eldot"]) > 1e-7 and e["label"] != want:
                 raise Violation("label-signal", f"{what}: {e['label']} at t = {e['us'] / 1e6} s while the elevation rate is "
